@@ -22,6 +22,7 @@ from ..model import dotted
 from ..rules import empty, refine, render
 
 IMG = "droplets.image_analysis"
+DROP = "droplets.droplets"
 
 
 def check_grid_dispatch(ctx: Ctx):
@@ -228,6 +229,50 @@ def check_histogram_total(ctx: Ctx):
     return n
 
 
+def check_axis_constraint(ctx: Ctx):
+    """An axisymmetric droplet is valid anywhere on the symmetry (z) axis: its consistency check constrains exactly the two
+    transverse coordinates (x, y) of the centre and leaves the axial one free.  A check that includes position[2] rejects
+    every valid droplet away from z = 0 (rendering, locating with modes on cylindrical grids and tracking then abort)."""
+    m = ctx.model
+    q = f"{DROP}.PerturbedDroplet3DAxisSym.check_data"
+    if not m.has_func(q):
+        return 0
+    fi = m.func(q)
+    fv = view(m, fi)
+    si = stmt_index(fv)
+    n = 0
+    for r in [s_ for s_ in fv.statements() if isinstance(s_, ast.Raise)]:
+        sel = set()
+        seen = False
+        for t, _p in si.effective_guards(r):
+            ext_ = fv.expand(t, t)
+            sub_values = {id(p_.value) for p_ in ast.walk(ext_) if isinstance(p_, ast.Subscript)}
+            for sub in ast.walk(ext_):
+                if isinstance(sub, ast.Subscript) and U(sub.value) in ("self.position", "self.data['position']", 'self.data["position"]'):
+                    seen = True
+                    sl = sub.slice
+                    try:
+                        if isinstance(sl, ast.Slice):
+                            lo = ast.literal_eval(sl.lower) if sl.lower is not None else None
+                            hi = ast.literal_eval(sl.upper) if sl.upper is not None else None
+                            stp = ast.literal_eval(sl.step) if sl.step is not None else None
+                            sel |= set(range(3)[slice(lo, hi, stp)])
+                        else:
+                            sel.add(range(3)[ast.literal_eval(sl)])
+                    except (ValueError, IndexError, TypeError):
+                        sel.add("?")
+                elif isinstance(sub, ast.Attribute) and U(sub) == "self.position" and id(sub) not in sub_values:
+                    seen = True
+                    sel |= {0, 1, 2}
+        if not seen:
+            continue
+        n += 1
+        ctx.decide(sel == {0, 1}, "DIMGUARD", f"{fi.qualname}:on-axis", (fi, r), "the on-axis check constrains the transverse coordinates x, y only",
+                   f"the on-axis check constrains the coordinates {sorted(map(str, sel))} of the centre instead of [0, 1] (x and y): valid droplets on the z axis away from the origin are rejected with "
+                   "ValueError (or off-axis droplets are accepted)")
+    return n
+
+
 def check_threshold_usage(ctx: Ctx):
     """The threshold option is `float | "auto" | "extrema" | "mean" | "otsu"`: outside locate_droplets' own dispatch (which
     converts it) it may only be stored and forwarded.  Comparing it with field values or doing arithmetic on it raises
@@ -315,6 +360,7 @@ def check(ctx: Ctx):
                "phase_field.grid.dim; on symmetric grids (fewer axes than dimensions) another quantity raises the documented error for valid requests or builds droplets of the wrong dimension")
     check_otsu_total(ctx)
     check_histogram_total(ctx)
+    check_axis_constraint(ctx)
     check_threshold_usage(ctx)
     from . import c07
 
@@ -323,13 +369,22 @@ def check(ctx: Ctx):
     c07.check_overlaps(sub)
     ctx.findings.extend(f for f in sub.findings if f.rule == "METRIC")
     ctx.functions |= sub.functions
+    # INDEX: the distance matrix is indexed (track, droplet) — rows from the alive tracks, columns from the frame's droplets.
+    # A transposed matrix indexes past the shorter list as soon as the two counts differ (a droplet dissolves or nucleates)
+    from ..rules import tracking
+
+    sub2 = Ctx(ctx.model, ctx.prop, ctx.tier)
+    tracking.check_distance_matcher(sub2, rules=("INDEX",))
+    ctx.findings.extend(f for f in sub2.findings if f.rule == "INDEX")
+    ctx.functions |= sub2.functions
+    ctx.expect("INDEX", 4)
     ctx.expect("METRIC", 2)
     ctx.expect("WIDTH", 4)
     ctx.expect("TOTAL", 4)
     ctx.expect("EMPTY", 9)
     ctx.expect("ARITY", 3)
     ctx.expect("DIV0", 1)
-    ctx.expect("DIMGUARD", 3)
+    ctx.expect("DIMGUARD", 4)
     ctx.expect("EXHAUST", 8)
     ctx.expect("FEASIBLE", 2)
     ctx.expect("SIGNAL", 3)
